@@ -57,6 +57,10 @@ type Router struct {
 	sendMu        sync.Mutex
 	retainer      *list.List
 	postSendPause time.Duration
+
+	// Closed once the most recently parked inbound message has been handed over; only touched by
+	// the server goroutine.
+	inboundSent chan struct{}
 }
 
 // sendMultiple sends each message from the slice. Doesn't matter if one fails, all will be tried.
@@ -88,20 +92,47 @@ func (router *Router) resendLost(count uint16) {
 }
 
 // pushInbound sends the message through the inbound channel. If the sending blocks, it will launch
-// a goroutine which will do the sending.
+// a goroutine which will do the sending. Messages are handed over in the order of the calls: a
+// parked message waits until the one before it has been handed over.
 func (router *Router) pushInbound(msg cemi.Message) {
-	select {
-	case router.inbound <- msg:
+	prev := router.inboundSent
 
-	default:
-		go func() {
-			// Since this goroutine decouples from the server goroutine, it might try to send when
-			// the server closed the inbound channel. Sending to a closed channel will panic. But we
-			// don't care, because cool guys don't look at explosions.
-			defer func() { recover() }()
-			router.inbound <- msg
-		}()
+	// Only try a direct hand-over if no earlier message is still parked.
+	parked := false
+	if prev != nil {
+		select {
+		case <-prev:
+		default:
+			parked = true
+		}
 	}
+
+	if !parked {
+		select {
+		case router.inbound <- msg:
+			return
+
+		default:
+		}
+	}
+
+	sent := make(chan struct{})
+	router.inboundSent = sent
+
+	go func() {
+		defer close(sent)
+
+		// Since this goroutine decouples from the server goroutine, it might try to send when
+		// the server closed the inbound channel. Sending to a closed channel will panic. But we
+		// don't care, because cool guys don't look at explosions.
+		defer func() { recover() }()
+
+		if prev != nil {
+			<-prev
+		}
+
+		router.inbound <- msg
+	}()
 }
 
 const maxWaitTime = 50 * time.Millisecond
